@@ -37,6 +37,11 @@ CLAIMED = {
    "DESIGN.md §6 C01",
    "Reference denotation = transcription of derive/src/lib.rs prose + DESIGN §10 decisions; differential comparison as strong as the grammar/input generator; lister finding classified with hook H2.",
    "Lean 4 reference denotation as oracle + exhaustive-per-grammar differential against optimize+Vm::parse (default and grammar-extras)"),
+ "C05": ("other",
+   "Lean transcriptions of all seven passes and of optimize() whose outputs are compared AS TREES with the real passes (hook H2) on every run — the tightest tie a pure function admits — in two builds (default, grammar-extras); meaning preservation is stated against the reference denotation (rotate/unroll/concat/factor/skip_preserves, rules_congruence, pipeline_preserves_without_list, list_not_preserving) and is being proved; until then the check searches: the denotations of a grammar and of its image under each pass are compared on all inputs up to a length bound. The lister rewrite is a recorded known finding.",
+   "DESIGN.md §6 C05",
+   "Lean kernel for the proved part; syntactic equality of pass outputs on generated rule sets; reference denotation as the meaning; hook H2.",
+   "Lean 4 transcription of the passes validated by tree equality with the real passes + meaning-preservation theorems/search on the reference denotation"),
 }
 REASON_TODO = "not claimed yet: machinery for this property is not built in the committed tree (planned in DESIGN.md §6); no check is registered rather than an unsound one"
 
